@@ -113,8 +113,11 @@ func HarnessC08Deliver() {
 	target := targets[vChoose(len(targets))]
 	edge := vBool()
 	var batch data.Points
+	hour := 1
 	for i, n := 0, 1+vChoose(vParam("batch", 2)); i < n; i++ {
-		p := data.Point{Type: []string{"value", "description", "zz"}[vChoose(3)], Key: "0", Time: vInstant(19886, 1+i, 0, 0), Value: vF64(), Text: vStr(1), Origin: origin}
+		// non-decreasing timestamps: the next point is later or carries the same time
+		hour += vChoose(2)
+		p := data.Point{Type: []string{"value", "description", "zz"}[vChoose(3)], Key: "0", Time: vInstant(19886, hour, 0, 0), Value: vF64(), Text: vStr(1), Origin: origin}
 		vAssume(p.Value == p.Value)
 		batch = append(batch, p)
 	}
